@@ -869,6 +869,8 @@ func (fr *Frame) exec(st *State, in ssa.Instruction) {
 	case *ssa.Go:
 		u.abstracted = true
 		u.note("go statement in %s: spawned function not executed here (abstracted)", fr.fn)
+		// ghost event: visible to contracts as called("go.stmt") / count("go.stmt")
+		fr.afterCall(st, "go.stmt", Val{T: "true", S: "Bool"})
 	case *ssa.Send:
 		u.abstracted = true
 		u.note("channel send in %s abstracted (no effect on modelled state)", fr.fn)
